@@ -495,4 +495,347 @@ theorem pipeline_of_command {c : Cfg} {q : Q} {neg binCmd : Bool} {f : Nat} {pr 
     simpa using redirs_complete .nil rest hr
   simp only [pipeline, List.append_assoc, h1, hc, R.bind, h2]
 
+theorem name_call {c : Cfg} {q : Q} {pre : Bool} {f : Nat} {t : Tok} {X : List Tok}
+    (h : X.head? ≠ some lparen) : name c q pre (f+1) t X = ofOpt (callExpr q X) := by
+  cases X with
+  | nil => rfl
+  | cons x xs => cases x <;> first | rfl | simp at h
+
+theorem callExpr_not_lparen {q : Q} {X rest : List Tok} (h : callExpr q X = some rest) :
+    X.head? ≠ some lparen := by
+  cases X with
+  | nil => simp
+  | cons x xs =>
+    intro hx
+    simp at hx; subst hx
+    rw [callExpr_cons (by decide)] at h
+    simp [callStop, wordLike, isLitWord] at h
+
+theorem firstOK_ne_io {c : Cfg} {neg pre : Bool} {t : Tok} (h : firstOK c neg pre t = true) : t ≠ io := by
+  rintro rfl; simp [firstOK, isRsrv, isLitWord] at h
+
+theorem command_simple {c : Cfg} {q : Q} {neg pre : Bool} {f : Nat} {t : Tok} {X rest : List Tok}
+    (hf : firstOK c neg pre t = true) (hc : callExpr q X = some rest) :
+    command c q neg pre (f+1+1) (t :: X) = .ok rest := by
+  have hl := callExpr_not_lparen hc
+  have hn : ∀ pre', name c q pre' (f+1) t X = .ok rest := fun pre' => by
+    rw [name_call hl, hc]; rfl
+  have hX : (match X with | lparen :: _ => R.err | _ => ofOpt (callExpr q X)) = .ok rest := by
+    cases X with
+    | nil => rw [hc]; rfl
+    | cons x xs => cases x <;> first | (rw [hc]; rfl) | simp at hl
+  simp only [command]
+  split
+  · exact hX
+  · rename_i hcond
+    have hofc : ofOpt (callExpr q X) = .ok rest := by rw [hc]; rfl
+    have hn' := hn pre
+    cases t <;> simp [firstOK, isRsrv, isLitWord] at hf hcond <;>
+      first
+      | exact hn'
+      | exact hX
+      | exact hofc
+      | (simp only [hf, if_true]; exact hn')
+      | (rcases hf with ⟨h1, h2⟩ | h3
+         · simp [h1, h2] at hcond
+         · simp only [h3, if_true]; exact hn')
+      | (simp [hf.1, hf.2] at hcond)
+
+theorem comp_c_simple {c : Cfg} {q neg pre t its} (hpr : Redirs pre)
+    (hf : firstOK c neg (!pre.isEmpty) t = true) (hi : Items its) :
+    Comp c (.command q neg) .open (pre ++ t :: its) := by
+  intro f rest binCmd hal hfu
+  simp only [List.length_append, List.length_cons] at hfu
+  obtain ⟨f', rfl⟩ : ∃ f', f = f' + 1 := ⟨f - 1, by omega⟩
+  obtain ⟨f'', rfl⟩ : ∃ f'', f' = f'' + 1 := ⟨f' - 1, by omega⟩
+  obtain ⟨f3, rfl⟩ : ∃ f3, f'' = f3 + 1 := ⟨f'' - 1, by omega⟩
+  have hc : callExpr q (its ++ rest) = some rest := callExpr_complete hi rest (by simpa [allows] using hal)
+  have := pipeline_of_command (c := c) (q := q) (neg := neg) (binCmd := binCmd) (f := f3+1+1)
+    (body := t :: its) (rest := rest) hpr (allows_ne_io hal)
+    (by simpa using command_simple (f := f3) hf hc) (by simpa using firstOK_ne_io hf)
+  simpa using this
+
+theorem command_redirOnly {c : Cfg} {q : Q} {neg : Bool} {f : Nat} {rest : List Tok}
+    (h : openOK q rest.head? = true) : command c q neg true (f+1) rest = .ok rest := by
+  cases rest with
+  | nil => rfl
+  | cons t r => cases t <;> simp_all [command, openOK, callStop, isLitWord]
+
+theorem comp_c_redir {c : Cfg} {q neg w r} (hw : wordLike w = true) (hr : Redirs r) :
+    Comp c (.command q neg) .open (io :: w :: r) := by
+  intro f rest binCmd hal hfu
+  obtain ⟨f', rfl⟩ : ∃ f', f = f' + 1 := ⟨f - 1, by omega⟩
+  obtain ⟨f'', rfl⟩ : ∃ f'', f' = f'' + 1 := ⟨f' - 1, by omega⟩
+  have := pipeline_of_command (c := c) (q := q) (neg := neg) (binCmd := binCmd) (f := f''+1)
+    (pr := io :: w :: r) (body := []) (rest := rest) (.cons hw hr) (allows_ne_io hal)
+    (by simpa using command_redirOnly (f := f'') (by simpa [allows] using hal))
+    (by simpa using allows_ne_io hal)
+  simpa using this
+
+theorem comp_c_compound {c : Cfg} {q neg body post} (hdb : Derives c (.compound q) .closed body)
+    (ihb : Comp c (.compound q) .closed body) (hpost : Redirs post) :
+    Comp c (.command q neg) .closed (body ++ post) := by
+  intro f rest binCmd hal hfu
+  simp only [List.length_append] at hfu
+  obtain ⟨f', rfl⟩ : ∃ f', f = f' + 1 := ⟨f - 1, by omega⟩
+  obtain ⟨t, r, rfl, ht⟩ := first_of_derives hdb
+  have h1 : redirs ((t :: r) ++ (post ++ rest)) = some (false, (t :: r) ++ (post ++ rest)) := by
+    simpa using redirs_complete .nil ((t :: r) ++ (post ++ rest))
+      (by rintro h; simp at h; subst h; simp [isCompoundStart] at ht)
+  have h2 := ihb f' (post ++ rest) neg (by omega)
+  have h3 : redirs (post ++ rest) = some (!post.isEmpty, rest) :=
+    redirs_complete hpost rest (allows_ne_io hal)
+  simp only [pipeline, List.append_assoc, h1, h2, R.bind, h3, Nat.add_sub_cancel]
+
+theorem seal_inv {q : Q} {e : End} {n : Option Tok} (h : allows q e.seal n = true) :
+    allows q e n = true ∧ notCont n = true := by
+  cases e <;> simp_all [End.seal, allows] <;>
+    (cases n with
+     | none => simp [notCont]
+     | some t => cases t <;> simp_all [notCont])
+
+theorem readEndRes_false (rest : List Tok) : readEndRes false rest = (false, rest) := by
+  cases rest with
+  | nil => rfl
+  | cons t r => cases t <;> rfl
+
+theorem fnName_ne_io {c : Cfg} {neg : Bool} {nm : Tok} (h : fnNameOK c neg nm = true) : nm ≠ io := by
+  rintro rfl; simp [fnNameOK] at h
+
+/-- `command` on a function definition reduces to `name`. -/
+theorem command_fn {c : Cfg} {q : Q} {neg : Bool} {f : Nat} {nm : Tok} {X : List Tok}
+    (h : fnNameOK c neg nm = true) :
+    command c q neg false (f+1) (nm :: X) = name c q false f nm X := by
+  cases nm <;> simp_all [fnNameOK, command]
+
+/-- `name` on `( )`: the function body. -/
+theorem name_fn_andor {c : Cfg} {q : Q} {neg : Bool} {f : Nat} {nm : Tok} {r2 : List Tok}
+    (h : fnNameOK c neg nm = true) (hfb : c.fnBody = .andOr) :
+    name c q false (f+1) nm (lparen :: rparen :: r2) =
+      (getStmt c q false false f (skipNL r2)).bind fun x => .ok x.2 := by
+  have hpb : (c.posix && nm == bang) = false := by
+    cases nm <;> simp_all [fnNameOK]
+  simp only [name, hpb, hfb]
+  simp
+
+theorem name_fn_command {c : Cfg} {q : Q} {neg : Bool} {f : Nat} {nm : Tok} {r2 : List Tok}
+    (h : fnNameOK c neg nm = true) (hfb : c.fnBody = .command) :
+    name c q false (f+1) nm (lparen :: rparen :: r2) = pipeline c q false true f (skipNL r2) := by
+  have hpb : (c.posix && nm == bang) = false := by
+    cases nm <;> simp_all [fnNameOK]
+  simp only [name, hpb, hfb]
+  simp
+
+theorem name_fn_compound {c : Cfg} {q : Q} {neg : Bool} {f : Nat} {nm : Tok} {r2 : List Tok}
+    {t3 : Tok} {r3 : List Tok}
+    (h : fnNameOK c neg nm = true) (hfb : c.fnBody = .compound) (hsk : skipNL r2 = t3 :: r3)
+    (ht3 : isCompoundStart t3 = true) :
+    name c q false (f+1) nm (lparen :: rparen :: r2) = pipeline c q false true f (t3 :: r3) := by
+  have hpb : (c.posix && nm == bang) = false := by
+    cases nm <;> simp_all [fnNameOK]
+  simp only [name, hpb, hfb, hsk]
+  simp [ht3]
+
+theorem fn_via {c : Cfg} {q : Q} {neg binCmd : Bool} {f : Nat} {nm : Tok} {k : Nat}
+    {body rest : List Tok} {t0 : Tok} {r0 : List Tok} (hn : fnNameOK c neg nm = true)
+    (_hb : body = t0 :: r0) (_ht0 : isStart0 t0 = true) (hr : rest.head? ≠ some io)
+    (hbody : name c q false (f+1) nm (lparen :: rparen :: (nls k ++ body ++ rest)) = .ok rest) :
+    pipeline c q neg binCmd (f+1+1+1) (nm :: lparen :: rparen :: nls k ++ body ++ rest) =
+      pipeTail c q binCmd (f+1+1) rest := by
+  have hc : command c q neg (!([] : List Tok).isEmpty) (f+1+1)
+      ((nm :: lparen :: rparen :: nls k ++ body) ++ rest) = .ok rest := by
+    simp only [List.isEmpty_nil, Bool.not_true, List.cons_append, List.append_assoc]
+    rw [command_fn hn]
+    simpa using hbody
+  have := pipeline_of_command (c := c) (q := q) (neg := neg) (binCmd := binCmd) (f := f+1+1)
+    (pr := []) (body := nm :: lparen :: rparen :: nls k ++ body) (rest := rest) .nil hr hc
+    (by simpa using fnName_ne_io hn)
+  simpa using this
+
+theorem comp_f_andor {c : Cfg} {q neg nm k e body} (hfb : c.fnBody = .andOr)
+    (hn : fnNameOK c neg nm = true) (hd : Derives c (.stmt q) e body)
+    (ih : Comp c (.stmt q) e body) :
+    Comp c (.command q neg) e.seal (nm :: lparen :: rparen :: nls k ++ body) := by
+  intro f rest binCmd hal hfu
+  obtain ⟨hal', hnc⟩ := seal_inv hal
+  obtain ⟨t0, r0, hb, ht0⟩ := first_of_derives hd
+  simp only [List.length_append, List.length_cons, nls_length] at hfu
+  obtain ⟨f', rfl⟩ : ∃ f', f = f' + 1 + 1 + 1 := ⟨f - 3, by omega⟩
+  have hsk : skipNL (nls k ++ body ++ rest) = body ++ rest := by
+    subst hb; simpa using skipNL_nls_start (k := k) (r := r0 ++ rest) ht0
+  have hbody : name c q false (f'+1) nm (lparen :: rparen :: (nls k ++ body ++ rest)) = .ok rest := by
+    rw [name_fn_andor hn hfb, hsk, ih f' rest false hal' hnc (by omega), readEndRes_false]
+    rfl
+  simpa using fn_via (binCmd := binCmd) hn hb ht0 (allows_ne_io hal) hbody
+
+theorem comp_f_command {c : Cfg} {q neg nm k e body} (hfb : c.fnBody = .command)
+    (hn : fnNameOK c neg nm = true) (hd : Derives c (.command q false) e body)
+    (ih : Comp c (.command q false) e body) :
+    Comp c (.command q neg) e (nm :: lparen :: rparen :: nls k ++ body) := by
+  intro f rest binCmd hal hfu
+  obtain ⟨t0, r0, hb, ht0, _⟩ := first_of_derives hd
+  simp only [List.length_append, List.length_cons, nls_length] at hfu
+  obtain ⟨f', rfl⟩ : ∃ f', f = f' + 1 + 1 + 1 := ⟨f - 3, by omega⟩
+  obtain ⟨f'', rfl⟩ : ∃ f'', f' = f'' + 1 + 1 := ⟨f' - 2, by omega⟩
+  have hsk : skipNL (nls k ++ body ++ rest) = body ++ rest := by
+    subst hb; simpa using skipNL_nls_start (k := k) (r := r0 ++ rest) ht0
+  have hbody : name c q false (f''+1+1+1) nm (lparen :: rparen :: (nls k ++ body ++ rest)) = .ok rest := by
+    rw [name_fn_command hn hfb, hsk, ih (f''+1+1) rest true hal (by omega)]
+    exact pipeTail_bin _
+  simpa using fn_via (binCmd := binCmd) hn hb ht0 (allows_ne_io hal) hbody
+
+theorem comp_f_compound {c : Cfg} {q neg nm k e body} (hfb : c.fnBody = .compound)
+    (hn : fnNameOK c neg nm = true) (hd : Derives c (.command q false) e body)
+    (hsc : startsCompound body = true)
+    (ih : Comp c (.command q false) e body) :
+    Comp c (.command q neg) e (nm :: lparen :: rparen :: nls k ++ body) := by
+  intro f rest binCmd hal hfu
+  obtain ⟨t0, r0, hb, ht0, _⟩ := first_of_derives hd
+  simp only [List.length_append, List.length_cons, nls_length] at hfu
+  obtain ⟨f', rfl⟩ : ∃ f', f = f' + 1 + 1 + 1 := ⟨f - 3, by omega⟩
+  obtain ⟨f'', rfl⟩ : ∃ f'', f' = f'' + 1 + 1 := ⟨f' - 2, by omega⟩
+  have hsk : skipNL (nls k ++ body ++ rest) = body ++ rest := by
+    subst hb; simpa using skipNL_nls_start (k := k) (r := r0 ++ rest) ht0
+  have hbody : name c q false (f''+1+1+1) nm (lparen :: rparen :: (nls k ++ body ++ rest)) = .ok rest := by
+    subst hb
+    simp only [startsCompound] at hsc
+    rw [name_fn_compound hn hfb (by simpa using hsk) hsc]
+    have := ih (f''+1+1) rest true hal (by omega)
+    rw [List.cons_append] at this
+    rw [this]
+    exact pipeTail_bin _
+  simpa using fn_via (binCmd := binCmd) hn hb ht0 (allows_ne_io hal) hbody
+
+instance (s : List Tok) : Decidable (stopsOK s) := by unfold stopsOK; infer_instance
+
+theorem follow_c {c : Cfg} {q : Q} {stops : List Tok} {e : End} {l : List Tok} {x : Tok}
+    {rest : List Tok} {f : Nat}
+    (ihl : Comp c (.list q stops true) e l) (hso : stopsOK stops)
+    (hal : allows q e (some x) = true) (hend : ListEnd q stops (x :: rest))
+    (hf : 8 * l.length + 5 ≤ f) :
+    (followStmts c q stops (f+1) (l ++ x :: rest)).bind (expect x) = .ok rest := by
+  have := ihl f (x :: rest) true false hso (by simpa using hal) hend hf (by simp)
+  simp [followStmts, this, R.bind, expect]
+
+theorem listEnd_stop {q : Q} {stops : List Tok} {x : Tok} {rest : List Tok}
+    (h : stops.contains x = true) (h1 : x ≠ nl) (h2 : x ≠ semi) (h3 : x ≠ amp) :
+    ListEnd q stops (x :: rest) := .inr ⟨x, rest, rfl, h1, h2, h3, .inl h⟩
+
+theorem comp_block {c : Cfg} {q e l} (ihl : Comp c (.list q [rbrace] true) e l)
+    (hal : allows q e (some rbrace) = true) : Comp c (.compound q) .closed (lbrace :: l ++ [rbrace]) := by
+  intro f rest neg hf
+  simp only [List.length_append, List.length_cons, List.length_nil] at hf
+  obtain ⟨f', rfl⟩ : ∃ f', f = f' + 1 + 1 := ⟨f - 2, by omega⟩
+  have := follow_c (rest := rest) (f := f') ihl (by decide) hal
+    (listEnd_stop (by decide) (by decide) (by decide) (by decide)) (by omega)
+  simpa [command] using this
+
+theorem comp_subshell {c : Cfg} {q e l} (ihl : Comp c (.list .sub [] true) e l)
+    (hal : allows .sub e (some rparen) = true) :
+    Comp c (.compound q) .closed (lparen :: l ++ [rparen]) := by
+  intro f rest neg hf
+  simp only [List.length_append, List.length_cons, List.length_nil] at hf
+  obtain ⟨f', rfl⟩ : ∃ f', f = f' + 1 + 1 := ⟨f - 2, by omega⟩
+  have := follow_c (rest := rest) (f := f') ihl (by decide) hal
+    (.inr ⟨rparen, rest, rfl, by decide, by decide, by decide, .inr (.inl ⟨rfl, rfl⟩)⟩) (by omega)
+  simpa [command] using this
+
+theorem ifTail_head {c : Cfg} {nt e t} (h : Derives c nt e t) :
+    match nt with
+    | .ifTail q e0 => ∃ x r, t = x :: r ∧ (x = kFi ∨ x = kElse ∨ x = kElif) ∧ allows q e0 (some x) = true
+    | _ => True := by
+  cases h <;> try trivial
+  case i_fi h => exact ⟨kFi, _, rfl, .inl rfl, h⟩
+  case i_else h _ _ => exact ⟨kElse, _, rfl, .inr (.inl rfl), h⟩
+  case i_elif h _ _ _ _ => exact ⟨kElif, _, rfl, .inr (.inr rfl), h⟩
+
+theorem listEnd_if {q : Q} {x : Tok} {rest : List Tok} (h : x = kFi ∨ x = kElse ∨ x = kElif) :
+    ListEnd q [kFi, kElif, kElse] (x :: rest) := by
+  rcases h with rfl | rfl | rfl <;>
+    exact listEnd_stop (by decide) (by decide) (by decide) (by decide)
+
+/-- The common part of `if` and `elif`: condition, `then`, then-part, and the tail. -/
+theorem if_body {c : Cfg} {q e1 cond e2 thn e t} {f : Nat} {rest : List Tok}
+    (ih1 : Comp c (.list q [kThen] true) e1 cond) (hal1 : allows q e1 (some kThen) = true)
+    (ih2 : Comp c (.list q [kFi, kElif, kElse] true) e2 thn)
+    (hdt : Derives c (.ifTail q e2) e t) (iht : Comp c (.ifTail q e2) e t)
+    (hf : 8 * (cond.length + thn.length + t.length) + 7 ≤ f) :
+    (((followStmts c q [kThen] (f+1) (cond ++ kThen :: thn ++ t ++ rest)).bind (expect kThen)).bind
+      fun r1 => (followStmts c q [kFi, kElif, kElse] (f+1) r1).bind (ifTail c q (f+1))) = .ok rest := by
+  obtain ⟨x, r, rfl, hx, halx⟩ := ifTail_head hdt
+  have h1 := follow_c (rest := thn ++ (x :: r) ++ rest) (f := f) ih1 (by decide) hal1
+    (listEnd_stop (by decide) (by decide) (by decide) (by decide)) (by omega)
+  have h2 := ih2 f ((x :: r) ++ rest) true false (by decide) (by simpa using halx)
+    (by simpa using listEnd_if (q := q) (rest := r ++ rest) hx) (by omega) (by simp)
+  have h3 := iht (f+1) rest (by simp at hf ⊢; omega)
+  simp only [List.append_assoc, List.cons_append] at h1 h2 h3 ⊢
+  rw [h1]
+  simp only [R.bind, followStmts, h2, Bool.false_or]
+  exact h3
+
+theorem comp_ifc {c : Cfg} {q e1 cond e2 thn e t}
+    (ih1 : Comp c (.list q [kThen] true) e1 cond) (hal1 : allows q e1 (some kThen) = true)
+    (ih2 : Comp c (.list q [kFi, kElif, kElse] true) e2 thn)
+    (hdt : Derives c (.ifTail q e2) e t) (iht : Comp c (.ifTail q e2) e t) :
+    Comp c (.compound q) .closed (kIf :: cond ++ kThen :: thn ++ t) := by
+  intro f rest neg hf
+  simp only [List.length_append, List.length_cons] at hf
+  obtain ⟨f', rfl⟩ : ∃ f', f = f' + 1 + 1 := ⟨f - 2, by omega⟩
+  have := if_body (rest := rest) (f := f') ih1 hal1 ih2 hdt iht (by omega)
+  simpa [command] using this
+
+theorem comp_i_fi {c : Cfg} {q e0} : Comp c (.ifTail q e0) .closed [kFi] := by
+  intro f rest hf
+  obtain ⟨f', rfl⟩ : ∃ f', f = f' + 1 := ⟨f - 1, by omega⟩
+  simp [ifTail]
+
+theorem comp_i_else {c : Cfg} {q e0 e l} (ihl : Comp c (.list q [kFi] true) e l)
+    (hal : allows q e (some kFi) = true) : Comp c (.ifTail q e0) .closed (kElse :: l ++ [kFi]) := by
+  intro f rest hf
+  simp only [List.length_append, List.length_cons, List.length_nil] at hf
+  obtain ⟨f', rfl⟩ : ∃ f', f = f' + 1 + 1 := ⟨f - 2, by omega⟩
+  have := follow_c (rest := rest) (f := f') ihl (by decide) hal
+    (listEnd_stop (by decide) (by decide) (by decide) (by decide)) (by omega)
+  simpa [ifTail] using this
+
+theorem comp_i_elif {c : Cfg} {q e0 e1 cond e2 thn e t}
+    (ih1 : Comp c (.list q [kThen] true) e1 cond) (hal1 : allows q e1 (some kThen) = true)
+    (ih2 : Comp c (.list q [kFi, kElif, kElse] true) e2 thn)
+    (hdt : Derives c (.ifTail q e2) e t) (iht : Comp c (.ifTail q e2) e t) :
+    Comp c (.ifTail q e0) .closed (kElif :: cond ++ kThen :: thn ++ t) := by
+  intro f rest hf
+  simp only [List.length_append, List.length_cons] at hf
+  obtain ⟨f', rfl⟩ : ∃ f', f = f' + 1 + 1 := ⟨f - 2, by omega⟩
+  have := if_body (rest := rest) (f := f') ih1 hal1 ih2 hdt iht (by omega)
+  simpa [ifTail] using this
+
+theorem comp_loop {c : Cfg} {q kw e1 cond e2 body} (hkw : kw = kWhile ∨ kw = kUntil)
+    (ih1 : Comp c (.list q [kDo] true) e1 cond) (hal1 : allows q e1 (some kDo) = true)
+    (ih2 : Comp c (.list q [kDone] true) e2 body) (hal2 : allows q e2 (some kDone) = true) :
+    Comp c (.compound q) .closed (kw :: cond ++ kDo :: body ++ [kDone]) := by
+  intro f rest neg hf
+  simp only [List.length_append, List.length_cons, List.length_nil] at hf
+  obtain ⟨f', rfl⟩ : ∃ f', f = f' + 1 + 1 := ⟨f - 2, by omega⟩
+  have h1 := follow_c (rest := body ++ [kDone] ++ rest) (f := f') ih1 (by decide) hal1
+    (listEnd_stop (by decide) (by decide) (by decide) (by decide)) (by omega)
+  have h2 := follow_c (rest := rest) (f := f') ih2 (by decide) hal2
+    (listEnd_stop (by decide) (by decide) (by decide) (by decide)) (by omega)
+  simp only [List.append_assoc, List.cons_append, List.nil_append] at h1 h2 ⊢
+  rcases hkw with rfl | rfl <;> (simp [command]; rw [h1]; simpa [R.bind] using h2)
+
+theorem comp_forc {c : Cfg} {q hd close e body} (hfh : ForHead c hd close)
+    (ihl : Comp c (.list q [close] true) e body) (hal : allows q e (some close) = true) :
+    Comp c (.compound q) .closed (kFor :: hd ++ body ++ [close]) := by
+  intro f rest neg hf
+  simp only [List.length_append, List.length_cons, List.length_nil] at hf
+  obtain ⟨f', rfl⟩ : ∃ f', f = f' + 1 + 1 := ⟨f - 2, by omega⟩
+  have hcl := forHead_close hfh
+  have h1 := forHead_complete hfh (body ++ close :: rest)
+  have h2 := follow_c (rest := rest) (f := f') ihl
+    (by rcases hcl with rfl | rfl <;> decide) hal
+    (listEnd_stop (by simp) (by rcases hcl with rfl | rfl <;> decide)
+      (by rcases hcl with rfl | rfl <;> decide) (by rcases hcl with rfl | rfl <;> decide)) (by omega)
+  simp only [List.append_assoc, List.cons_append, List.nil_append] at h1 h2 ⊢
+  simp [command, h1, h2]
+
 end ShVerif.C12
